@@ -567,5 +567,5 @@ for _pid, _keys in {"C01": ["C01"], "C02": ["C02"], "C03": ["C03", "C03s"], "C06
         if _d["name"] == "sched":
             _d["verdict_keys"] = _keys
 
-HOOK_COMMITS = ["339bb5a", "c6219b0", "409314f", "54a7dc6", "a37d6ee", "6c1ad25"]
+HOOK_COMMITS = ["339bb5a", "c6219b0", "409314f", "54a7dc6", "a37d6ee", "6c1ad25", "35abbc3"]
 NOT_YET = {}
